@@ -107,6 +107,22 @@ int main() {
         printf("non-overlap dim %d (shape 1 at %g): generated var%d + %g <= var%d, expected var%d + %g <= var%d\n", d, off, q->left->id, q->gap, q->right->id, first, want, 1 - first); bad++; }
     }
   }
+  { // a cluster bound to a 200 x 60 node rectangle: its boundary variables are tied to the rectangle's sides, X by half the width, Y by half the height
+    vpsc::Rectangles rs2; rs2.push_back(new vpsc::Rectangle(0, 200, 0, 60)); rs2.push_back(new vpsc::Rectangle(90, 110, 20, 40));
+    RectangularCluster rc(0); rc.addChildNode(1); rc.clusterVarId = 2;
+    CompoundConstraints idle; vpsc::Variables unused[2]; rc.generateFixedRectangleConstraints(idle, rs2, unused);
+    if (idle.size() != 4) { printf("rectangle-bound cluster: %zu fixed-rectangle constraints (expected 4)\n", idle.size()); bad++; }
+    for (int d = 0; d < 2; ++d) {
+      vpsc::Variables vs; vpsc::Constraints cs; for (int i = 0; i < 4; ++i) vs.push_back(new vpsc::Variable(i, 0));
+      for (size_t k = 0; k < idle.size(); ++k) idle[k]->generateSeparationConstraints((vpsc::Dim)d, vs, cs, rs2);
+      double half = d == 0 ? 100 : 30; int lo = 0, hi = 0;
+      for (size_t k = 0; k < cs.size(); ++k) {
+        if (cs[k]->left->id == 2 && cs[k]->right->id == 0 && cs[k]->gap == half && cs[k]->equality) lo++;
+        else if (cs[k]->left->id == 0 && cs[k]->right->id == 3 && cs[k]->gap == half && cs[k]->equality) hi++;
+        else { printf("rectangle-bound cluster dim %d: unexpected constraint var%d + %g %s var%d (half extent is %g)\n", d, cs[k]->left->id, cs[k]->gap, cs[k]->equality ? "==" : "<=", cs[k]->right->id, half); bad++; } }
+      if (lo != 1 || hi != 1) { printf("rectangle-bound cluster dim %d: boundary not tied to the rectangle's sides (lower %d, upper %d)\n", d, lo, hi); bad++; }
+    }
+  }
   if (bad) { printf("REPRODUCED: %d problem(s) in the generated containment / non-overlap constraints\n", bad); return 1; }
   printf("not reproduced\n"); return 0;
 }
@@ -290,6 +306,33 @@ def jobs(tier):
                   expect=[r'h_pair_less\.assertion']))
     # (NonOverlapConstraintExemptions::addExemptGroupOfNodes -- vector of vectors, std::sort/unique/erase, std::set -- was tried as a bounded job with stub
     #  models of those library functions; cbmc did not finish in 900 s even for two groups of two ids, so it is NOT under obligation: seed C08-3 is a miss)
+    # ---------------- RectangularCluster::generateFixedRectangleConstraints: a cluster bound to a node rectangle has its four boundary variables tied to that
+    # rectangle's sides -- X with half the WIDTH, Y with half the HEIGHT, as equalities (whole function, straight-line; SeparationConstraint is a recording stand-in)
+    gf = slice_func("libcola/cluster.cpp", r'^void RectangularCluster::generateFixedRectangleConstraints\(', "RectangularCluster::generateFixedRectangleConstraints")
+    sdecl = slice_region("libcola/compound_constraints.h", r'^        SeparationConstraint\(const vpsc::Dim dim, unsigned l, unsigned r,', r'\);', "SeparationConstraint(dim, l, r, g, equality) declaration")
+    if re.sub(r'\s+', ' ', sdecl.text).strip() != "SeparationConstraint(const vpsc::Dim dim, unsigned l, unsigned r, double g, bool equality = false);":
+        raise Undecided("C08: the declaration of SeparationConstraint(dim, l, r, g, equality) changed: " + sdecl.text)
+    gf_cxx = (base + 'extern "C" { void w_new_sep(int dim, unsigned l, unsigned r, double gap, int eq); void w_pushed(void *c); double w_width(void *r); double w_height(void *r); }\n'
+              "namespace vpsc {\n" + dim.text + "\nclass Variable; typedef std::vector<Variable *> Variables;\n"
+              "class Rectangle { public: double width() const { return w_width((void *)this); } double height() const { return w_height((void *)this); } int verif_pad; };\n"
+              "typedef std::vector<Rectangle *> Rectangles;\n}\n"
+              "namespace cola {\nclass CompoundConstraint { public: int verif_pad; };\n"
+              "// recording stand-in with the parameter list of the real declaration (checked textually above)\n"
+              "class SeparationConstraint : public CompoundConstraint { public: SeparationConstraint(const vpsc::Dim dim, unsigned l, unsigned r, double g, bool equality = false) { w_new_sep((int)dim, l, r, g, equality ? 1 : 0); } };\n"
+              "struct CompoundConstraints { void push_back(CompoundConstraint *c) { w_pushed((void *)c); } };\n"
+              "class RectangularCluster { public: unsigned clusterVarId; int m_rectangle_index;\n"
+              "    void generateFixedRectangleConstraints(cola::CompoundConstraints& idleConstraints, vpsc::Rectangles& rc, vpsc::Variables (&vars)[2]) const; };\n" +
+              gf.text + "\n}\n"
+              "static vpsc::Rectangle verif_rect[3]; static vpsc::Rectangle *verif_rcd[3];\n"
+              'extern "C" int verif_rect_index(void *r) { for (int k = 0; k < 3; ++k) if (r == (void *)&verif_rect[k]) return k; return -1; }\n'
+              'extern "C" void w_fixed(int rectIndex, unsigned clusterVarId) { cola::RectangularCluster c; c.clusterVarId = clusterVarId; c.m_rectangle_index = rectIndex;\n'
+              "  vpsc::Rectangles rc; for (int k = 0; k < 3; ++k) verif_rcd[k] = &verif_rect[k]; rc._d = verif_rcd; rc._n = 3; rc._cap = 3; vpsc::Variables vars[2]; cola::CompoundConstraints idle;\n"
+              "  c.generateFixedRectangleConstraints(idle, rc, vars); }\n")
+    js.append(Job("fixed_rectangle_cluster_constraints", "U", spec, "h_fixed", cxx=gf_cxx, defines=["JOB_fixed_rect"], slices=[gf, sdecl, dim], replay=replay_c08,
+                  flags=["--sat-solver", "cadical"], backend="sat:cadical", timeout=600,
+                  domain="every rectangle index in [-1,2] of three rectangles, every cluster variable id below 2^30, every width and height (all doubles)",
+                  expect=[r'h_fixed\.assertion'],
+                  note="plain harness, loop-free function: complete over the stated domain"))
     return js
 
 
@@ -304,7 +347,8 @@ TRUSTED = [
 ASSUMPTIONS = [
     "PARTIAL CLAIM: the statement of C08 is NOT decided.  Under contract are only (1) the translation of one cluster's member entries into VPSC constraints "
     "(ClusterContainmentConstraints::generateSeparationConstraints) and (2) the body of NonOverlapConstraints::generateSeparationConstraints for one pair of plain shapes.  "
-    "Also under contract: the containment constructor's loop body for one CHILD CLUSTER (four entries, order free). Not under any obligation: the entries the constructor "
+    "Also under contract: the containment constructor's loop body for one CHILD CLUSTER (four entries, order free), and RectangularCluster::generateFixedRectangleConstraints "
+    "(a cluster bound to a node rectangle: four equalities tying its boundary variables to the rectangle's sides; SeparationConstraint and Rectangle are recording stand-ins). Not under any obligation: the entries the constructor "
     "builds for member NODES (std::set iteration), pairs in which a shape stands "
     "for a cluster, the pair list itself (std::list, every pair present; of the exemption set only its key order ShapePair::operator< is under contract), makeFeasible's choice among the four directions, the descent loop ending in a projection "
     "(see C07), cluster bounding boxes, and hence 'no two rectangles overlap' / containment in the result",
@@ -317,4 +361,4 @@ ASSUMPTIONS = [
 EXPLANATION = ("Contract on the real ClusterContainmentConstraints::generateSeparationConstraints: each member entry yields, in its own dimension only, exactly the inequality that "
                "keeps the member at least its offset inside the named cluster boundary variable (lower boundary + offset <= member, or member + offset <= upper boundary), with the "
                "creator back-pointer set; every entry is visited. The constructor's loop body for one child cluster records exactly the four entries that hold the child's two boundary variables inside the parent's (padding + margin). Contract-style harness on the real pair body of NonOverlapConstraints::generateSeparationConstraints: a pair of plain "
-               "shapes overlapping in the other axis by more than 0.0005 gets one separation in this axis, smaller centre first, gap = sum of half sizes. Everything else C08 states is undecided.")
+               "shapes overlapping in the other axis by more than 0.0005 gets one separation in this axis, smaller centre first, gap = sum of half sizes. A cluster bound to a node rectangle gets exactly the four equalities that tie its boundary variables to that rectangle's sides (half the width in X, half the height in Y). Everything else C08 states is undecided.")
